@@ -2,6 +2,7 @@
 """(re)writes /verif/seeded/<name>/meta.json from the agent's meta, result.txt and the check summaries"""
 import json, os, glob, re, subprocess
 head = subprocess.run(["git", "-C", "/repo", "log", "--format=%h", "-1"], capture_output=True, text=True).stdout.strip()
+HIST = json.load(open('/verif/seeded/history.json')) if os.path.exists('/verif/seeded/history.json') else {}
 for d in sorted(glob.glob('/verif/seeded/C*-*')):
     name = os.path.basename(d)
     old = json.load(open(d + '/meta.json')) if os.path.exists(d + '/meta.json') else {}
@@ -20,8 +21,9 @@ for d in sorted(glob.glob('/verif/seeded/C*-*')):
                                 "demo_exit_unmodified": int(m.group(1)) if m else None, "demo_exit_modified": int(m.group(2)) if m else None,
                                 "baseline_tests_with_change": m.group(3) if m else None},
             "detection": {"checks_run": m.group(4).split() if m else [], "violation_signatures": sigs},
-            "history": old.get("history", []),
-            "based_on_repo_commit": old.get("based_on_repo_commit") or head}
+            "history": old.get("history") or HIST.get(name, []),
+            "based_on_repo_commit": old.get("based_on_repo_commit") or head,
+            "last_confirmed_on_repo_commit": head}
     json.dump(meta, open(d + '/meta.json', 'w'), indent=1)
     if os.path.exists(d + '/meta.agent.json'):
         os.remove(d + '/meta.agent.json')
